@@ -348,49 +348,7 @@ func ruleR12_5(r *Run) {
 			"the load-time correction only fires for known version ids strictly above the counter; the counter is the next id to issue, so after a crash between persisting the uuid↔version maps and persisting the counter (known id == counter) the next new version is given an id that is already in use", w.fpos(lm))
 	}
 	if lm != nil {
-		// every correction of an id counter at load time only raises it: the store is on the true edge of
-		// `x > counter` (or `counter < x`) and stores x (+k, k ≥ 0)
-		n := 0
-		for _, fld := range []string{"instanceID", "versionID", "repoID"} {
-			for _, st := range fieldStores(lm, "repoManager", fld) {
-				n++
-				okRaise := false
-				for _, b := range lm.Blocks {
-					ifi, ok := b.Instrs[len(b.Instrs)-1].(*ssa.If)
-					if !ok {
-						continue
-					}
-					bo, ok := ifi.Cond.(*ssa.BinOp)
-					if !ok {
-						continue
-					}
-					var x, cur ssa.Value
-					switch bo.Op {
-					case token.GTR, token.GEQ:
-						x, cur = bo.X, bo.Y
-					case token.LSS, token.LEQ:
-						x, cur = bo.Y, bo.X
-					default:
-						continue
-					}
-					if !isFieldLoad(stripConv(cur), "repoManager", fld) || !guardedByEdge(ifi, 0, st) {
-						continue
-					}
-					l := lin(st.Val, 0)
-					if !l.ok || l.c < 0 {
-						continue
-					}
-					for _, rv := range rootsOfLin(st.Val) {
-						if sameLoadOrValue(rv, x) {
-							okRaise = true
-						}
-					}
-				}
-				r.check(okRaise, fmt.Sprintf("repoManager.loadMetadata:%s:correction-only-raises", fld), "the load-time correction is on the true edge of `x > counter` and stores x (+k)",
-					"a load-time correction can move the "+fld+" counter backwards (it is not guarded by a comparison with the loaded counter): ids issued before the restart are issued again", w.pos(st.Pos()))
-			}
-		}
-		r.check(n >= 2, "repoManager.loadMetadata:id-corrections", fmt.Sprintf("%d corrections", n), "load-time corrections of the id counters not found", w.fpos(lm))
+		checkCorrectionsOnlyRaise(r, lm, []string{"instanceID", "versionID", "repoID"}, 2)
 	}
 	ll := w.method("datatype/labelmap", "Data", "loadLabelIDs")
 	if ll == nil {
@@ -614,4 +572,53 @@ func sameLoadOrValue(a, b ssa.Value) bool {
 	fa, ok1 := la.X.(*ssa.FieldAddr)
 	fb, ok2 := lb.X.(*ssa.FieldAddr)
 	return ok1 && ok2 && fa.Field == fb.Field && fa.X == fb.X
+}
+
+// checkCorrectionsOnlyRaise: every correction of an id counter at load time only raises it: the store is
+// on the true edge of `x > counter` (or `counter < x`) and stores x (+k, k ≥ 0).
+func checkCorrectionsOnlyRaise(r *Run, lm *ssa.Function, flds []string, floor int) {
+	w := r.W
+		// every correction of an id counter at load time only raises it: the store is on the true edge of
+		// `x > counter` (or `counter < x`) and stores x (+k, k ≥ 0)
+		n := 0
+		for _, fld := range flds {
+			for _, st := range fieldStores(lm, "repoManager", fld) {
+				n++
+				okRaise := false
+				for _, b := range lm.Blocks {
+					ifi, ok := b.Instrs[len(b.Instrs)-1].(*ssa.If)
+					if !ok {
+						continue
+					}
+					bo, ok := ifi.Cond.(*ssa.BinOp)
+					if !ok {
+						continue
+					}
+					var x, cur ssa.Value
+					switch bo.Op {
+					case token.GTR, token.GEQ:
+						x, cur = bo.X, bo.Y
+					case token.LSS, token.LEQ:
+						x, cur = bo.Y, bo.X
+					default:
+						continue
+					}
+					if !isFieldLoad(stripConv(cur), "repoManager", fld) || !guardedByEdge(ifi, 0, st) {
+						continue
+					}
+					l := lin(st.Val, 0)
+					if !l.ok || l.c < 0 {
+						continue
+					}
+					for _, rv := range rootsOfLin(st.Val) {
+						if sameLoadOrValue(rv, x) {
+							okRaise = true
+						}
+					}
+				}
+				r.check(okRaise, fmt.Sprintf("repoManager.loadMetadata:%s:correction-only-raises", fld), "the load-time correction is on the true edge of `x > counter` and stores x (+k)",
+					"a load-time correction can move the "+fld+" counter backwards (it is not guarded by a comparison with the loaded counter): ids issued before the restart are issued again", w.pos(st.Pos()))
+			}
+		}
+		r.check(n >= floor, "repoManager.loadMetadata:id-corrections", fmt.Sprintf("%d corrections", n), "load-time corrections of the id counters not found", w.fpos(lm))
 }
